@@ -23,11 +23,15 @@ from ..evidence import Check
 
 
 def model_runs(ck):
-    cases = [("Chains K=3 Steps=2 W=3", (3, 2, 3, False, False), "pass"), ("Chains K=3 Steps=2 W=2 (queued chain)", (3, 2, 2, False, False), "pass"),
-             ("Chains K=2 Steps=3 W=1 (sequential workers)", (2, 3, 1, False, False), "pass"),
-             ("DEV one shared stream", (2, 2, 2, True, False), "fail"), ("DEV streams per worker slot", (3, 2, 2, False, True), "fail")]
+    cases = [("Chains K=3 Steps=2 W=3", (3, 2, 3, False, False, 0, False), "pass"), ("Chains K=3 Steps=2 W=2 (queued chain)", (3, 2, 2, False, False, 0, False), "pass"),
+             ("Chains K=2 Steps=3 W=1 (sequential workers)", (2, 3, 1, False, False, 0, False), "pass"),
+             ("Chains K=2 Steps=2 W=2, loader draws 2 from the parent stream first", (2, 2, 2, False, False, 2, False), "pass"),
+             ("Chains K=1 Steps=3, loader draws 2 first (single chain continues on the parent stream)", (1, 3, 1, False, False, 2, False), "pass"),
+             ("DEV one shared stream", (2, 2, 2, True, False, 0, False), "fail"), ("DEV streams per worker slot", (3, 2, 2, False, True, 0, False), "fail"),
+             ("DEV loader draws concurrently with a single chain", (1, 2, 1, False, False, 2, True), "fail")]
     jobs = [dict(job="c18_%d" % i, module="Chains", workers=2, timeout=900,
-                 cfg=tlc.cfg_text(constants={"K": a[0], "Steps": a[1], "W": a[2], "SharedStream": tlc.tla_bool(a[3]), "StreamPerWorker": tlc.tla_bool(a[4])},
+                 cfg=tlc.cfg_text(constants={"K": a[0], "Steps": a[1], "W": a[2], "SharedStream": tlc.tla_bool(a[3]), "StreamPerWorker": tlc.tla_bool(a[4]),
+                                             "PreDraws": a[5], "LazyLoad": tlc.tla_bool(a[6])},
                                   invariants=["ScheduleIndependence", "KeyedByChain", "NoSharedDraw"])) for i, (_, a, _) in enumerate(cases)]
     for (label, _, expect), r in zip(cases, tlc.run_many(jobs)):
         ck.add_tlc(label, r, must_fail=(expect == "fail"))
@@ -156,13 +160,16 @@ def run(corrupt=None):
     write_input_assign(in_assign)
     grp = [launch("assign_%s" % l, workdir, in_assign, seed + 7, 2, extra=("--assign-loss-prob", "--high-loss-prob", "0.3"), **kw)
            for l, kw in (("h0_delay_chain1", dict(hashseed=0, delays="0:0,1:5")), ("h5_onecore_delay_chain0", dict(hashseed=5, one_core=True, delays="0:5,1:0")))]
+    grp1 = [launch("assign1_%s" % l, workdir, in_assign, seed + 8, 1, extra=("--assign-loss-prob", "--high-loss-prob", "0.3"), **kw)
+            for l, kw in (("h0", dict(hashseed=0)), ("h31_onecore", dict(hashseed=31, one_core=True)))]
     assign_group = [collect(r) for r in grp]
+    assign_single = [collect(r) for r in grp1]
     if thorough:
         for gi, (prop, op) in enumerate((("bootstrap", "0.3"), ("fully-adapted", "0"), ("semi-adapted", "0.3"))):
             grp = [launch("g%d_%s" % (gi, l), workdir, in_file, seed + 1 + gi, 3, extra=("--proposal", prop, "--outlier-prob", op), **kw)
                    for l, kw in (("h0", dict(hashseed=0)), ("h7_onecore", dict(hashseed=7, one_core=True)), ("h3_delayed", dict(hashseed=3, delays="0:7,1:3,2:0")))]
             extra_groups.append([collect(r) for r in grp])
-    for grp, what in [(runs, "2 chains")] + [(singles, "1 chain")] + [(assign_group, "2 chains, --assign-loss-prob")] + [(g, "3 chains") for g in extra_groups]:
+    for grp, what in [(runs, "2 chains")] + [(singles, "1 chain")] + [(assign_group, "2 chains, --assign-loss-prob"), (assign_single, "1 chain, --assign-loss-prob")] + [(g, "3 chains") for g in extra_groups]:
         for r in grp:
             if r["rc"] != 0 or "chains" not in r:
                 raise RuntimeError("phyclone run failed in the harness (%s): %s" % (r["label"], r["stdout_tail"][-800:]))
@@ -175,7 +182,7 @@ def run(corrupt=None):
             ck.nontrivial("%s|%s" % (what, pert))
         orders = {tuple(r["order"]) for r in grp}
         ck.extra.setdefault("completion_orders", {})[what] = sorted(list(o) for o in orders)
-        if what != "1 chain" and len(orders) < 2:
+        if not what.startswith("1 chain") and len(orders) < 2:
             ck.note("the perturbations did not change the completion order for %s (orders %s): scheduling coverage reduced in this run" % (what, sorted(orders)))
         ck.traces_validated += len(grp)
     ck.sample({"run": runs[0]["label"], "completion_order": runs[0]["order"], "chain0_first_entries": runs[0]["chains"][0][:3]})
